@@ -19,6 +19,7 @@ import EaselModel.Gencode.WholeLemmas
 import EaselModel.Gencode.SixFrames
 import EaselModel.Gencode.Numbering
 import EaselModel.Gencode.HistoryLemmas
+import EaselModel.Gencode.FastaLemmas
 import EaselModel.Gencode.Total
 import EaselModel.Gencode.Dump
 /-! # C17 — property theorems (statements + glue only; lemmas live in Gencode/*.lean)
@@ -555,6 +556,25 @@ example : (T.tables.head?.map fun t =>
 example : topSlices A.dna [2,2,0,3,2,0,0,0,3,0,0,1] 0 [5, 4, 3] =
     [[2,3,3,0,3], [0,3,3,3,1,0], [1,0,3,1,1]] ∧
     windows [] (revcomp A.dna [2,2,0,3,2,0,0,0,3,0,0,1]) [5, 4, 3] = [[2,3,3,0,3], [0,3,3,3,1,0], [1,0,3,1,1]] := by decide +kernel
+
+/-- THE TEXT PRINTED FOR A RECORD (`esl_gencode_ProcessOrf` without an ORF block → `esl_sqio_Write(…, eslSQFILE_FASTA)`, what
+    `esl-translate` prints): the line `>orf<n> source=<name> coords=<start>..<end> length=<n> frame=<f> desc=<desc>`, then residue
+    lines which, newlines removed, are exactly the record's residues as amino-acid symbols in order, in ⌈n/60⌉ newline-terminated
+    lines; the second part: no symbol of the dumped amino alphabet (nor the filler `?`) is a newline, for any code -/
+theorem printed_record_spec (source desc : String) (o : Orf) :
+    (∃ lines, fastaOrf A.amino source desc o = strBytes (">" ++ orfName o ++ " " ++ orfDesc source desc o ++ "\n") ++ lines ∧
+      lines.filter (· ≠ 10) = o.aa.map (fun x => A.amino.sym.getD x 63) ∧ lines.count 10 = (o.aa.length + 59) / 60) ∧
+    (∀ s ∈ A.amino.sym, s ≠ 10) := by
+  have hsym : ∀ s ∈ A.amino.sym, s ≠ 10 := by decide +kernel
+  refine ⟨fastaOrf_spec A.amino source desc o (fun x _ => ?_), hsym⟩
+  rw [List.getD_eq_getElem?_getD]
+  cases h : A.amino.sym[x]? with
+  | none => simp
+  | some s => exact hsym s (List.mem_of_getElem? h)
+
+-- a 61-residue record: two residue lines, 60 + 1
+example : ((fastaOrf A.amino "s" "" ⟨1, 1, 183, 1, List.replicate 61 8⟩).count 10,
+    ((fastaOrf A.amino "s" "" ⟨1, 1, 183, 1, List.replicate 61 8⟩).reverse.take 3)) = (3, [10, 75, 10]) := by decide +kernel
 
 /-! ## histories of calls on ONE `ESL_GENCODE` object -/
 
